@@ -264,6 +264,9 @@ Definition is_minimal_nonface (k : list simplex) (s : simplex) : bool :=
   negb (kmem s k) && forallb (fun f => kmem f k) (facets s).
 Definition spec_blockers (k : list simplex) : list simplex :=
   filter (fun s => (dim s >=? 2) && is_minimal_nonface k s) (sublists (spec_vertices k)).
+(* the link of alpha in the abstract complex: simplices disjoint from alpha whose union with alpha is a simplex *)
+Definition spec_link (k : list simplex) (alpha : simplex) : list simplex :=
+  filter (fun t => forallb (fun v => negb (smem v alpha)) t && kmem (sunion alpha t) k) k.
 Definition spec_link_condition (k : list simplex) (a b : Z) : bool :=
   negb (existsb (fun s => smem a s && smem b s) (spec_blockers k)).
 (* closedness of a list of simplices: every facet of a simplex of dimension >= 1 is there *)
